@@ -85,9 +85,46 @@ def _chain_mask(rng, k):
     return mask
 
 
+def _long_chain_mask(rng, k):
+    """A cycle of 3^(k-1) vertices with exactly one successor inside (the k-mers along a ternary de Bruijn sequence of order
+    k-1) plus one chord vertex u: c -> u -> c' with c, c' on the cycle.  c branches, every vertex reaches c, so the whole
+    cycle is retained at threshold 1: a chain of 3^(k-1) - 1 consecutive out-degree-1 vertices that encoding has to cross."""
+    from props.C03 import _debruijn
+    n = 4 ** k
+    letters = rng.sample([0, 1, 2, 3], 3)
+    seq = _debruijn(letters, k - 1)
+    m = len(seq)
+    cyc = set()
+    for i in range(m):
+        v = 0
+        for j in range(k):
+            v = v * 4 + seq[(i + j) % m]
+        cyc.add(v)
+    order = sorted(cyc)
+    rng.shuffle(order)
+    for c in order:
+        for j in range(4):
+            u = (c * 4 + j) % n
+            if u in cyc:
+                continue
+            back = [x for x in G.succs(u, k) if x in cyc]
+            if back:
+                mask = [0] * n
+                for v in cyc:
+                    mask[v] = 1
+                mask[u] = 1
+                return mask
+    return None
+
+
 def generate(ctx):
     rng = ctx.rng
     dsw = import_dsw()
+    if ctx.shard % 4 == 2:
+        for k in ctx.pick([6], [5, 6, 7]):
+            mask = _long_chain_mask(rng, k)
+            if mask is not None:
+                yield "graph", dict(k=k, mask=G.mask_to_hex(mask), t=1, fam="long-chain", all_starts=False, n_msgs=ctx.pick(6, 10))
     import json
     import os
     corpus = os.path.join(os.path.dirname(os.path.abspath(__file__)), "corpus_deep_masks.json")
@@ -100,6 +137,10 @@ def generate(ctx):
     if ctx.shard == 3 or (not ctx.quick() and ctx.shard < 3):
         yield "graph", dict(k=8, filter=dict(run=rng.choice([2, 3]), gc=rng.choice([[0.4, 0.6], [0.25, 0.75]])), t=rng.choice([1, 2]),
                             fam="order-8", all_starts=False, n_msgs=6)
+    for _ in range(ctx.pick(12, 80)):
+        k = rng.choice([2, 2, 3])
+        yield "reused_list", dict(k=k, mask=G.mask_to_hex(gens.rand_mask(rng, k, rng.choice([0.8, 0.9, 0.95]))), seed=rng.getrandbits(32),
+                                  bits=[rng.randint(0, 1) for _ in range(rng.randint(1, 24))])
     ks = ctx.pick([1, 3, 3, 4], [1, 3, 3, 4, 4, 5])
     from props.C03 import _cycle_mask, _filter_mask
     for _ in range(ctx.pick(60, 800)):
@@ -183,7 +224,8 @@ def check_graph(ctx, case):
             fast = no3 and rng.random() < 0.4
             if case.get("long"):
                 bits, mclass, fast = gens.message(rng, 8, "long")[0], "long", False
-            _encode_one(ctx, dsw, case, acc, k, t, V, has1, complete, int(start), bits, fast, mclass)
+            _encode_one(ctx, dsw, case, acc, k, t, V, has1, complete, int(start), bits, fast, mclass,
+                        dtype=rng.choice(["int64", "int64", "int64", "uint8", "uint8", "int8", "int32", "list"]))
         if rng.random() < 0.15:
             # buffer twins, one after the other: a short int64 message and the uint8 message with the same raw bytes
             short = [rng.randint(0, 1) for _ in range(rng.randint(1, 5))]
@@ -193,6 +235,43 @@ def check_graph(ctx, case):
                 pair.reverse()
             for b2, dt in pair:
                 _encode_one(ctx, dsw, case, acc, k, t, V, has1, complete, int(start), b2, False, "twin", dtype=dt)
+
+
+def check_reused_list(ctx, case):
+    """A caller tries start vertices one after the other with the same list object: fast mode refuses a walk that meets an
+    out-degree-3 vertex (documented ValueError), the next attempt succeeds - and must carry L or L+1 bits of the list as the
+    caller wrote it."""
+    dsw = import_dsw()
+    k = case["k"]
+    rng = random.Random(case["seed"])
+    try:
+        acc3 = np.asarray(dsw.connect_coding_graph(k, G.hex_to_mask(k, case["mask"], dtype=bool), 3)[1])
+        full = np.asarray(dsw.connect_coding_graph(k, np.ones(4 ** k, dtype=bool), 4)[1])
+    except ValueError:
+        return
+    threes = np.nonzero(G.out_degrees(acc3) == 3)[0].tolist()
+    if not threes:
+        return
+    bits = list(case["bits"])
+    message = list(bits)
+    refused = 0
+    for v in rng.sample(threes, min(3, len(threes))):
+        out = monitored(dsw.encode, encode_budget(len(bits), len(acc3)), message, acc3, int(v), is_faster=True)
+        if out.kind == "raised" and isinstance(out.exc, ValueError):
+            refused += 1
+    if not refused:
+        return
+    where = "k=%d, list message %s after %d refused fast-mode attempts on graph %s" % (k, bits, refused, G.acc_to_hex(acc3))
+    if message != bits:
+        ctx.fail("message-argument-modified", "the caller's list is now %s; %s" % (message, where))
+    start = rng.randrange(4 ** k)
+    out = monitored(dsw.encode, encode_budget(len(bits), 4 ** k), message, full, start, is_faster=True)
+    if out.kind != "ok" or not is_strand(out.value):
+        ctx.fail("encode-" + out.kind, "fast encode on the complete graph %s; %s" % (out.describe(), where))
+    elif 2 * len(out.value) not in (len(bits), len(bits) + 1):
+        ctx.fail("not-tight:fast-bit-count", "the strand %s carries %d bits, L = %d; %s" % (out.value, 2 * len(out.value), len(bits), where))
+    ctx.cls("list message reused after a refused fast-mode attempt")
+    ctx.done("reused_list", case, True)
 
 
 def _encode_one(ctx, dsw, case, acc, k, t, V, has1, complete, start, bits, fast, mclass, dtype="int64"):
@@ -212,9 +291,9 @@ def _encode_one(ctx, dsw, case, acc, k, t, V, has1, complete, start, bits, fast,
                 import contextlib
                 import io
                 with contextlib.redirect_stdout(io.StringIO()):
-                    out = dsw.encode(np.array(bits, dtype=dtype), proxy, start, is_faster=fast, verbose=True)
+                    out = dsw.encode(gens.as_message(bits, dtype), proxy, start, is_faster=fast, verbose=True)
             else:
-                out = dsw.encode(np.array(bits, dtype=dtype), proxy, start, is_faster=fast)
+                out = dsw.encode(gens.as_message(bits, dtype), proxy, start, is_faster=fast)
             kind = "ok"
         except AccessBudgetExceeded:
             kind, out = "lookups", None
@@ -225,7 +304,8 @@ def _encode_one(ctx, dsw, case, acc, k, t, V, has1, complete, start, bits, fast,
     ctx.obs("row_reads_over_bound", proxy.reads / read_budget)
     ctx.obs("loop_iterations_over_budget", b.count / encode_budget(L, V))
     mode = "fast" if fast else "normal"
-    where = "k=%d t=%d start=%d bits=%s mode=%s graph=%s" % (k, t, start, bits, mode, sub["arcs"])
+    ctx.cls("message container|" + dtype)
+    where = "k=%d t=%d start=%d bits=%s (%s) mode=%s graph=%s" % (k, t, start, bits, dtype, mode, sub["arcs"])
     if kind in ("lookups", "budget"):
         ctx.fail("no-termination-within-bound", "encode exceeded %s (L=%d, V=%d): %s" % (
             "4*L*V+8 = %d graph look-ups (4 per step of the L*V bound)" % read_budget if kind == "lookups" else "the loop-iteration budget", L, V, where), "encode", sub)
@@ -303,7 +383,7 @@ def check_encode(ctx, case):
                 bool((degs_all == 4).all()), case["start"], case["bits"], case["fast"], "replay", dtype=case.get("dtype", "int64"))
 
 
-CHECKS = {"graph": check_graph, "encode": check_encode}
+CHECKS = {"graph": check_graph, "encode": check_encode, "reused_list": check_reused_list}
 
 
 def floors(agg, tier):
@@ -312,10 +392,10 @@ def floors(agg, tier):
     for name, need in (("t1|normal", 1000), ("t1|fast", 300), ("t2|normal", 1000), ("t2|fast", 300), ("t3|normal", 50),
                        ("t4|normal", 20), ("normal|met out-degree 1", 500), ("normal|met out-degree 3", 200),
                        ("fast|carried L+1", 50), ("family|chain", 100), ("family|localbiofilter", 10), ("msg|zeros", 100),
-                       ("family|deep-sweeps", 20), ("family|order-8", 100), ("msg|long", 2), ("msg|twin", 200), ("encode with progress output", 500),
+                       ("family|deep-sweeps", 20), ("family|order-8", 100), ("family|long-chain", 20), ("list message reused after a refused fast-mode attempt", 60), ("message container|uint8", 2000), ("message container|list", 1000), ("msg|long", 2), ("msg|twin", 200), ("encode with progress output", 500),
                        ("generation preceded by edited predecessor/successor lists", 100)):
         if c.get(name, 0) < need:
             out.append("%s observed %d < %d" % (name, c.get(name, 0), need))
-    if agg["obs_max"].get("longest out-degree-1 run", 0) < 3:
-        out.append("longest out-degree-1 run met is %s < 3" % agg["obs_max"].get("longest out-degree-1 run", 0))
+    if agg["obs_max"].get("longest out-degree-1 run", 0) < 200:
+        out.append("longest out-degree-1 run met is %s < 200" % agg["obs_max"].get("longest out-degree-1 run", 0))
     return out
